@@ -79,8 +79,8 @@ CLAIMED = {
         note="no unbounded theorem about _walk / relative forms yet (correspondence + Lean oracles on implementation output).",
         technique=T_GENERIC),
     "C17": dict(engine="gen", ref="6/C17",
-        text="repr_roundtrip / repr_file (the four identifier assignments of script.py.mako decode to the requested values for ALL strings and tuples), incremental_partial (for every history that loads and every accepted new revision the incrementally updated map equals the reloaded map on ids, down revisions, resolved and normalised dependencies, children, label keys, heads, real heads, bases, real bases; full view when no labels), filename_suffix/accepted; counterexamples for the branch-label component (F5), the unescaped docstring (F12) and a '.#' id are kernel-checked and recorded as known findings. After every real generate_revision/command.revision/command.merge call the incremental ScriptDirectory is compared with a fresh one and with the model.",
-        note="Mako substitution is literal; Python tokenizer/importer and filesystem exercised live; \\w and str.lower() are parameters; 'the extended history loads' is a hypothesis of incremental_partial (checked on every case).",
+        text="repr_roundtrip / repr_file (the four identifier assignments of script.py.mako decode to the requested values for ALL strings and tuples), incremental (for every well-formed history that loads and every accepted new revision, add_revision succeeds, the extended history loads, and the incrementally updated map equals the reloaded map in the FULL view incl. branch labels - the label defect F5 is repaired in /repo), filename_suffix/accepted; counterexamples for the unescaped docstring (F12) and a '.#' id are kernel-checked and recorded. After every real generate_revision/command.revision/command.merge call the incremental ScriptDirectory is compared with a fresh one and with the model.",
+        note="Mako substitution is literal; Python tokenizer/importer and filesystem exercised live; \\w and str.lower() are parameters; version_path / file_template handling is covered by correspondence.",
         technique=T_GENERIC),
     "C18": dict(engine="txn", ref="6/C18",
         text="Lean theorems over Model.Txn.runToks (mirror of begin_transaction/autocommit_block/run_migrations in --sql mode) prove the framing grammar for every number of migrations, every body, every (transactional_ddl, per_migration) setting; the model is compared token-for-token with the real MigrationContext on 5 dialects and the Lean recogniser is run on the implementation's own output.",
